@@ -160,6 +160,31 @@ def run(ctx):
     ctx.ob('R04.7', 'claim_resources|whole indices first', all(y in cr.reach_from([x]) and x not in cr.reach_after(y) for x in ti_ for y in tf_),
            'in the single-group pool the whole indices are pushed before the fractional index', cr.loc(ti_[0]))
 
+    # ---- R04.8 label map <-> pool agreement over descriptor kinds
+    ctx.rule('R04.8', 'told = held (labels): the descriptor kinds for which ResourceLabelMap::new creates index->label entries are exactly the kinds whose pool indices ResourcePool::new resolves through the label map (List, Groups); Range indices are the raw numbers and must not be relabelled')
+    RDK = 'tako::internal::common::resources::descriptor::ResourceDescriptorKind'
+    LM = W + 'resources::map::ResourceLabelMap::'
+    pn = prog.body(POOLP + 'new')
+    ln = prog.body(LM + 'new')
+    all_kinds = set(v['name'] for v in prog.enum(RDK)['variants']) if prog.enum(RDK) else set()
+    ctx.require(all_kinds, 'R04.8: ResourceDescriptorKind enum not in facts')
+    gi_blocks = effect_blocks(prog, pn, Effect('label_get_index', callees=[LM + 'get_index']))
+    ctx.floor('R04.8', len(gi_blocks), 1, 'ResourcePool::new resolves indices through ResourceLabelMap::get_index')
+    pool_kinds = set()
+    for bi in gi_blocks:
+        vs = variants_at(pn, RDK, bi)
+        pool_kinds |= set(vs) if vs is not None else all_kinds
+    # label entries: writes into the `resources` table (IndexMut on it) inside ResourceLabelMap::new
+    lw = [bi for bi, t, c in ln.calls() if bi in ln.reachable() and (callee_decl(t) or c or '').endswith('IndexMut::index_mut')]
+    lw += [bi for bi, t, c in ln.calls() if bi in ln.reachable() and (c or '').endswith(('Vec::push', 'Map::insert', 'HashMap::insert')) ]
+    ctx.floor('R04.8', len(lw), 1, 'label-table writes in ResourceLabelMap::new')
+    label_kinds = set()
+    for bi in lw:
+        vs = variants_at(ln, RDK, bi)
+        label_kinds |= set(vs) if vs is not None else all_kinds
+    ctx.ob('R04.8', 'label map kinds == pool label-resolved kinds', label_kinds == pool_kinds,
+           f'ResourceLabelMap::new creates entries for kinds {sorted(label_kinds)}; ResourcePool::new resolves indices through the label map for kinds {sorted(pool_kinds)} (a kind relabelled on one side only tells a task values it does not hold)', ln.loc(lw[0]))
+
     # ---- R04.4
     lt = ts.call_blocks(REACT + 'launch_task')
     ctx.require(lt, 'R04.4: launch_task call')
